@@ -16,12 +16,43 @@ package derive
 
 import (
 	"fmt"
+	"go/build"
 	"go/parser"
+	"os"
+	"path/filepath"
+	"strings"
 
 	"golang.org/x/tools/go/loader"
 )
 
+// removeBrokenDerived removes generated files that stop their package from being loaded,
+// for example because a previous run was interrupted while writing them:
+// a file without a package clause or with only the beginning of the package name.
+// These files are regenerated anyway.
+func removeBrokenDerived(paths []string) {
+	for _, path := range paths {
+		pkg, err := build.Import(path, ".", build.FindOnly)
+		if err != nil || pkg.Dir == "" {
+			continue
+		}
+		_, err = build.ImportDir(pkg.Dir, 0)
+		if err == nil {
+			continue
+		}
+		broken := strings.Contains(err.Error(), derivedFilename)
+		if multi, ok := err.(*build.MultiplePackageError); ok {
+			for _, file := range multi.Files {
+				broken = broken || file == derivedFilename
+			}
+		}
+		if broken {
+			os.Remove(filepath.Join(pkg.Dir, derivedFilename))
+		}
+	}
+}
+
 func load(paths ...string) (*loader.Program, error) {
+	removeBrokenDerived(paths)
 	conf := loader.Config{
 		ParserMode:  parser.ParseComments,
 		AllowErrors: true,
